@@ -8,6 +8,7 @@
     proofs in Proofs/Tdc.v. *)
 From Verif Require Import Base.Prelude Gen.Constants Model.Tdc Proofs.Tdc.
 From Verif Require Model.Lazy Proofs.Lazy.
+From Verif Require Model.Reuse Proofs.Reuse.
 Open Scope N_scope.
 
 (** Any write error, read error / EOF / deadline expiry, or Close closes the connection. *)
@@ -124,3 +125,26 @@ Example c07_lazy_nonvacuous :
   | None => False
   end.
 Proof. vm_compute. repeat split; reflexivity. Qed.
+
+(** * The non-pipelined transport (reuse.go, Model.Reuse) *)
+Import Model.Reuse Proofs.Reuse.
+
+(** Close of the transport closes every connection it ever opened; afterwards calls fail at once. *)
+Theorem c07_reuse_tclose_closes_all ls s s' n :
+  xrun xinit ls = Some s -> xstep s MTClose = Some s' ->
+  tclosed s' = true /\ (xexists (conns s' n) = true -> xclosed (conns s' n) = true).
+Proof. exact (reuse_tclose_closes_all ls s s' n). Qed.
+Print Assumptions c07_reuse_tclose_closes_all.
+
+Theorem c07_reuse_after_close_fails s c pick s' :
+  tclosed s = true -> xstep s (MGetIdle c pick) = Some s' -> ures (xcalls s' c) = Some (XErr XClosedT).
+Proof. exact (reuse_after_close_fails s c pick s'). Qed.
+Print Assumptions c07_reuse_after_close_fails.
+
+Theorem c07_reuse_waiter_wakes s c :
+  upc (xcalls s c) = UWaiting ->
+  (uctx (xcalls s c) = true -> exists s', xstep s (MSelect c XSelCtx) = Some s') /\
+  (xclosed (conns s (uconn (xcalls s c))) = true -> exists s', xstep s (MSelect c XSelClose) = Some s') /\
+  (forall r, ubuf (xcalls s c) = Some r -> exists s', xstep s (MSelect c XSelReply) = Some s').
+Proof. exact (reuse_waiter_wakes s c). Qed.
+Print Assumptions c07_reuse_waiter_wakes.
